@@ -148,7 +148,12 @@ pub fn run(ctx: &Ctx) -> Outcome {
                 }
                 continue;
             }
-            let s = if i % 3 == 0 { crate::gen::linking_sentence(&mut rng, lex, 8) } else { workload_text(&mut rng, lex, 10) };
+            let mut s = if i % 3 == 0 { crate::gen::linking_sentence(&mut rng, lex, 8) } else { workload_text(&mut rng, lex, 10) };
+            if i % 512 == 5 {
+                let words = 1500 + rng.usize(2500);
+                s = format!("{}{}", crate::gen::long_filler_prefix(&mut rng, lex, words), s);
+                rep.count("long_documents");
+            }
             let r = recase(&mut rng, &s);
             crate::core::set_current(code, "find_numbers / replace_numbers_in_text / text2digits", &r);
             let (in_domain, n_occ, fail) = check(&ls, code, &s, &r);
